@@ -2539,10 +2539,18 @@ def r15(ctx):
                                             if m_ is not None:
                                                 out[m_] = x
                         return out
-                    rm = masks(ci.methods[rname], True)
-                    wm = dict(masks(ci.methods[wname], False))
+                    # the reader / writer and the same-class helpers they are split into
+                    r_fns = [h for h in class_methods_reachable(repo, ci.methods[rname], depth=3) if h.name not in (wname,)]
+                    w_fns = [h for h in class_methods_reachable(repo, ci.methods[wname], depth=3) if h.name not in (rname,)]
+                    rm, wm, r_owner = {}, {}, {}
+                    for h in r_fns:
+                        for k_, v_ in masks(h, True).items():
+                            rm.setdefault(k_, v_)
+                            r_owner.setdefault(k_, h)
+                    for h in w_fns:
+                        wm.update(masks(h, False))
                     # bits the writer sets / shifts by are bits the reader may test: every integer constant of a bit operation
-                    for x in walk(ci.methods[wname].node, into_defs=True):
+                    for x in [y for h in w_fns for y in walk(h.node, into_defs=True)]:
                         ops_ = []
                         if isinstance(x, ast.BinOp) and isinstance(x.op, (ast.BitOr, ast.BitAnd, ast.LShift, ast.RShift, ast.BitXor)):
                             ops_ = [x.left, x.right]
@@ -2556,13 +2564,50 @@ def r15(ctx):
                         n += 1
                         whole_bytes = isinstance(m_, int) and m_ in (0xFF, 0xFFFF, 0xFFFFFFFF, 0xFFFFFFFFFFFFFFFF)
                         ctx.ob("C11.R15", f"{ci.name}.{rname}: value mask {m_ if not isinstance(m_, int) else hex(m_)} is applied by "
-                                          f"{wname} too", m_ in wm or whole_bytes, ctx.w(ci.methods[rname], node),
+                                          f"{wname} too", m_ in wm or whole_bytes, ctx.w(r_owner.get(m_, ci.methods[rname]), node),
                                f"{rname} clears bits of the value it returns with a mask {wname} never applies: wire values that use "
                                f"those bits come back different (and re-encode differently)")
     ctx.floor("C11.R15", "value masks in readers", n, 1)
 
 
+def r16(ctx):
+    """Scalar floats are printed with repr(): the non-finite ones come out as `inf`, `-inf`, `nan`, which are names, not
+    literals.  The plain-value parser needs a branch that recognises those spellings and converts them with float()."""
+    repo = ctx.repo
+    ctx.rule("C11.R16", "the plain-value parser accepts the non-finite float spellings repr() prints (a branch testing for "
+                        "'inf'/'nan' that converts with float()), since ast.literal_eval rejects them")
+    cg = CallGraph(repo)
+    pf = repo.fn("HumanMessageSerializer.from_human_string")
+    fns = _parser_fns(repo, cg, pf)
+    lit = [(g, c) for g in fns for c in calls(g.node, into_defs=True) if ap(c.func) == "ast.literal_eval"]
+    ctx.floor("C11.R16", "ast.literal_eval calls in the parser", len(lit), 1)
+
+    def mentions_nonfinite(e, g) -> bool:
+        texts = []
+        for x in ast.walk(e):
+            if isinstance(x, ast.Constant) and isinstance(x.value, str):
+                texts.append(x.value.lower())
+            elif isinstance(x, (ast.Name, ast.Attribute)):
+                v = _static_value(repo, g, x)
+                for y in ast.walk(v) if v is not None else []:
+                    if isinstance(y, ast.Constant) and isinstance(y.value, str):
+                        texts.append(y.value.lower())
+        joined = " ".join(texts)
+        return "inf" in joined and "nan" in joined
+    ok = False
+    for g in fns:
+        for c in calls(g.node, into_defs=True):
+            if isinstance(c.func, ast.Name) and c.func.id == "float" and c.args:
+                for cond in conditions(c):
+                    if cond.polarity and mentions_nonfinite(cond.test, g):
+                        ok = True
+    ctx.ob("C11.R16", "from_human_string: plain values `inf` / `-inf` / `nan` (repr of non-finite floats) are accepted", ok,
+           pf.where, "a scalar F32/F64 holding inf or nan prints as `Var = inf`; ast.literal_eval raises ValueError on it, so the "
+           "text of such a message does not parse back")
+
+
 def run(ctx):
+    r16(ctx)
     r15(ctx)
     r14(ctx)
     r13(ctx)
